@@ -28,8 +28,11 @@ def forced_world(rng):
     w = W()
     uid = rng.choice([0, 1000])
     home = w.dir(R + b"/home/u")
-    vol = w.mount(R + b"/vol1")
-    nest = w.mount(R + b"/vol1/nest")
+    # (names with characters that mean something to %-formatting, str.format and the shell: the failing argument's own text
+    #  must come out in the diagnostic untouched)
+    vname = rng.choice([b"/vol1", b"/vol1", b"/100%done", b"/a%sb", b"/%(x)s", b"/{0}", b"/v{}l"])
+    vol = w.mount(R + vname)
+    nest = w.mount(R + vname + rng.choice([b"/nest", b"/n%dst"]))
     w.file(vol + b"/on-volume", b"v")
     w.file(nest + b"/on-nest", b"n")
     top = rng.choice(["none", "sticky", "sticky-with-uid"])
